@@ -377,6 +377,7 @@ pub fn classify(ev: &Ev, cx: &mut Cx) -> node::Shape {
     cx.class_if(ev.props.iter().any(|p| matches!(p.val, PV::Node { cap: Cap::Display | Cap::Debug, .. })), "capture-text");
     cx.class_if(matches!(ev.extent, Ext::Range(..)), "extent-range");
     cx.class_if(matches!(&ev.extent, Ext::Range(a, b) if a.nanos() == b.nanos()), "extent-empty-range");
+    cx.class_if(matches!(&ev.extent, Ext::Range(a, b) if a.nanos() > b.nanos()), "extent-inverted-range");
     cx.class_if(matches!(ev.extent, Ext::None), "extent-none");
     // physical layout of the property list
     let plan = ev.plan();
@@ -913,7 +914,11 @@ fn check_metric(ev: &Ev, r: &MetricRec, is_json: bool, cx: &mut Cx, rendered: &m
         Ext::Point(t) => (fits(t.nanos()), fits(t.nanos())),
         Ext::Range(a, b) => (fits(a.nanos()), fits(b.nanos())),
     };
-    if let (Some(s), Some(e), Some(first), Some(last)) = (start, end, points.first(), points.last()) {
+    // an inverted range (end before start) has no meaningful subdivision into points: what the times say is open
+    let inverted = matches!(&ev.extent, Ext::Range(a, b) if a.nanos() > b.nanos());
+    if inverted {
+        cx.dont_care();
+    } else if let (Some(s), Some(e), Some(first), Some(last)) = (start, end, points.first(), points.last()) {
         vassert!(cx, first.start == s, "otlp-metrics/point-time", "first point starts at {} != extent start {}", first.start, s);
         if points.len() == 1 {
             vassert!(cx, first.time == e, "otlp-metrics/point-time", "point time {} != extent end {}", first.time, e);
